@@ -144,13 +144,15 @@ impl GCase {
                 // mutations that follow
                 quiet_warm_up(&g);
             }
+            // every other edge carries attributes (Some(()) - the attribute type of these graphs is
+            // the unit type, but the paths taken for "an edge with attributes" are the same)
             let e = arcs
                 .entry((*u, *v, w.to_bits()))
                 .or_insert_with(|| {
                     Arc::new(Edge {
                         u: self.names[*u].clone(),
                         v: self.names[*v].clone(),
-                        attributes: None,
+                        attributes: if k % 2 == 0 { Some(()) } else { None },
                         weight: *w,
                     })
                 })
@@ -167,10 +169,15 @@ impl GCase {
                 }
             }
         }
-        // a node re-add (an attribute update) after the edges exist must change nothing
+        // a node re-add (an attribute update) after the edges exist must change nothing: bare,
+        // and with attributes
         for (i, n) in self.names.iter().enumerate() {
             if i % 3 == 1 {
-                g.add_node(Node::from_name(n.clone()));
+                if i % 2 == 0 {
+                    g.add_node(Node::from_name_and_attributes(n.clone(), ()));
+                } else {
+                    g.add_node(Node::from_name(n.clone()));
+                }
             }
         }
         // on single-edge graphs the finished graph is queried and then a duplicate of its first
